@@ -264,6 +264,7 @@ func WriteKeyRegistry(reg *KeyRegistry, opt KeyRegistryOptions) error {
 	if err != nil {
 		return y.Wrapf(err, "Error while opening tmp file in WriteKeyRegistry")
 	}
+	vevent(1, tmpPath, 0, 0) // verif: create
 	// Write buf to the disk.
 	if _, err = fp.Write(buf.Bytes()); err != nil {
 		// close the fd before returning error. We're not using defer
@@ -272,15 +273,19 @@ func WriteKeyRegistry(reg *KeyRegistry, opt KeyRegistryOptions) error {
 		fp.Close()
 		return y.Wrapf(err, "Error while writing buf in WriteKeyRegistry")
 	}
+	vevent(2, tmpPath, 0, int64(buf.Len())) // verif: write
 	// In Windows the files should be closed before doing a Rename.
 	if err = fp.Close(); err != nil {
 		return y.Wrapf(err, "Error while closing tmp file in WriteKeyRegistry")
 	}
 	// Rename to the original file.
+	vevent(8, tmpPath, 0, 0) // verif: rename-from
 	if err = os.Rename(tmpPath, filepath.Join(opt.Dir, KeyRegistryFileName)); err != nil {
 		return y.Wrapf(err, "Error while renaming file in WriteKeyRegistry")
 	}
+	vevent(9, KeyRegistryFileName, 0, 0) // verif: rename
 	// Sync Dir.
+	defer vevent(10, opt.Dir, 0, 0) // verif: syncdir
 	return syncDir(opt.Dir)
 }
 
@@ -360,6 +365,7 @@ func (kr *KeyRegistry) LatestDataKey() (*pb.DataKey, error) {
 		if _, err = kr.fp.Write(buf.Bytes()); err != nil {
 			return nil, err
 		}
+		vevent(2, KeyRegistryFileName, -1, int64(buf.Len())) // verif: write (O_DSYNC)
 	}
 	// storeDatakey encrypts the datakey So, placing un-encrypted key in the memory.
 	dk.Data = k
